@@ -396,6 +396,8 @@ def _parse_projection(proj_str: str) -> dict | list:
                 )
             if k in result:
                 raise ValueError(f"Duplicate rank entry: {k}. Must be unique. {s}")
+            if not v:
+                raise ValueError(f"Empty projection expression for rank {k}. {s}")
             result[k] = v
         else:
             if not part:
